@@ -12,6 +12,12 @@ import (
 
 func init() { vh.Register("C06", runC06) }
 
+// c06Extra: additional case families of this property (other files append to it in their init).
+var c06Extra []vh.PropFunc
+
+// c06ReplayExtra: replay dispatch for the extra families, by the "kind" field of the case.
+var c06ReplayExtra = map[string]func(ctx *vh.Ctx, raw json.RawMessage) error{}
+
 // c06Gen: the C05 case language with the weight on the positions of interrupt points: direct
 // successors of START, branch targets, nodes inside nested graphs; some runs without a
 // checkpoint id (nothing may be stored then).
@@ -43,6 +49,14 @@ func runC06(ctx *vh.Ctx) error {
 	other := gcase5.ProbeFwdStale()
 	ctx.Res.Note(fmt.Sprintf("CfgFwdStale=%v (probed on the implementation)", other))
 	if ctx.Replay != nil {
+		var probe struct {
+			Kind string `json:"kind"`
+		}
+		if json.Unmarshal(ctx.Replay, &probe) == nil && probe.Kind != "" {
+			if f, ok := c06ReplayExtra[probe.Kind]; ok {
+				return f(ctx, ctx.Replay)
+			}
+		}
 		var c gcase5.Case
 		if err := json.Unmarshal(ctx.Replay, &c); err != nil {
 			return err
@@ -55,6 +69,11 @@ func runC06(ctx *vh.Ctx) error {
 		c := c06Gen(ctx, i)
 		c.CfgFwdStale = &other
 		if err := gcase5.Evaluate(ctx, "C06", c, true); err != nil {
+			return err
+		}
+	}
+	for _, f := range c06Extra {
+		if err := f(ctx); err != nil {
 			return err
 		}
 	}
